@@ -773,6 +773,10 @@ def krylov(model, sfield, efield, var):
         i = -1  # Mark it as error; returned field is all zero.
         var.exit_message += " (returned field is zero)"
 
+    # The callback is not necessarily called with the returned solution (and
+    # possibly not at all); ensure the error corresponds to the final field.
+    var.l2 = residual(model, sfield, efield, True)
+
     # Convergence-checks for sslsolver.
     if var.verb == 3:
         pre = 50*" " + "\r"
